@@ -92,12 +92,20 @@ def api_variants(fam, seed, p=0.35):
             for f in lvl["named"]:
                 if f.get("kind") == "alt" and rnd.random() < p:
                     f["via_choice"] = True
+                if f.get("group_help") and rnd.random() < p:
+                    f["via_with_group_help"] = True
+                if f.get("kind") == "pure" and rnd.random() < 0.5:
+                    f["via_pure_with"] = True
                 for it in (field_leaves(f) if f.get("kind") in ("switch", "reqflag", "arg", "alt", "adj") else []):
                     if it.get("arity") == "many" and rnd.random() < p:
                         it["via_collect"] = True
             for q in lvl["tail"].get("items", []):
                 if q.get("arity") == "many" and rnd.random() < p:
                     q["via_collect"] = True
+                if q.get("group_help") and rnd.random() < p:
+                    q["via_with_group_help"] = True
+            if lvl.get("usage") and rnd.random() < 0.5:
+                lvl["via_with_usage"] = True
     return fam
 
 
@@ -1013,6 +1021,8 @@ def decorate_for_help(d, rnd, hostile=None):
             lvl["header"] = f"HEADER-{tag}"
         if rnd.random() < 0.5:
             lvl["footer"] = f"FOOTER-{tag}"
+        if rnd.random() < 0.12:
+            lvl["usage"] = f"Usage: app USAGE-{tag}"      # the whole usage line replaced (usage / with_usage)
         for f in lvl["named"]:
             for it in field_leaves(f):
                 it["help"] = f"HELP-{tag}-{it['id']}"
